@@ -39,6 +39,15 @@ def narrowings(fn):
 
 def guarded(fn, b, i, e, x):
     t = canon(x["e"])
+    # (0) a remainder by a value of at most 32 bits is below 2^31 in magnitude
+    inner = strip(x["e"])
+    if isinstance(inner, dict) and inner.get("k") == "bin" and inner.get("op") == "%":
+        d = inner["b"]
+        while isinstance(d, dict) and d.get("k") == "paren":
+            d = d.get("e")
+        if isinstance(d, dict) and d.get("k") == "cast" and fn.type(d.get("ft")).get("bits", 64) <= 32 \
+                and fn.type(d.get("ft")).get("k") in ("int", "uint"):
+            return "remainder of a division by a 32-bit value"
     # (a) the cast is itself part of a round-trip test  T != (int)T
     for y in walk(e, into_pre=True):
         if y.get("k") == "bin" and y.get("op") in ("!=", "==") and any(z is x for z in walk(y, into_pre=True)):
